@@ -251,6 +251,49 @@ func renderMpcl(mc *mpCase) string {
 			n1 := def(t)
 			n2 := def(t)
 			fmt.Fprintf(&body, "\t%s, %s := %s(%s, %s)\n", n1, n2, fn, x, y)
+		case "opa":
+			y := name(s.Y)
+			if s.Op == "/" {
+				y = fmt.Sprintf("(%s | 1)", y)
+			}
+			n := def(types[s.X-1])
+			fmt.Fprintf(&body, "\t%s := %s\n\t%s %s= %s\n", n, name(s.X), n, s.Op, y)
+		case "opal":
+			n := def(types[s.X-1])
+			fmt.Fprintf(&body, "\t%s := %s\n\t%s %s= %d\n", n, name(s.X), n, s.Op, s.C)
+		case "incdec":
+			n := def(types[s.X-1])
+			fmt.Fprintf(&body, "\t%s := %s\n", n, name(s.X))
+			for k := 0; k < s.C; k++ {
+				fmt.Fprintf(&body, "\t%s++\n", n)
+			}
+			for k := 0; k < -s.C; k++ {
+				fmt.Fprintf(&body, "\t%s--\n", n)
+			}
+		case "opf":
+			st := types[s.X-1]
+			ft := st.f1
+			if s.C == 2 {
+				ft = st.f2
+			}
+			y := name(s.Y)
+			if s.Op == "/" {
+				y = fmt.Sprintf("(%s | 1)", y)
+			}
+			n := def(rType{s: ft})
+			fmt.Fprintf(&body, "\t%st := %s\n\t%st.f%d %s= %s\n\t%s := %st.f%d\n", n, name(s.X), n, s.C, s.Op, y, n, n, s.C)
+		case "ope":
+			at := types[s.X-1]
+			y := name(s.Y)
+			if s.Op == "/" {
+				y = fmt.Sprintf("(%s | 1)", y)
+			}
+			n := def(rType{s: at.elem})
+			fmt.Fprintf(&body, "\t%st := %s\n\t%st[%d] %s= %s\n\t%s := %st[%d]\n", n, name(s.X), n, s.C, s.Op, y, n, n, s.C)
+		case "lensum":
+			at := types[s.X-1]
+			n := def(rType{s: at.elem})
+			fmt.Fprintf(&body, "\tvar %s %s\n\tfor %si := 0; %si < len(%s); %si++ {\n\t\t%s += %s[%si]\n\t}\n", n, at.elem, n, n, name(s.X), n, n, name(s.X), n)
 		case "vswap":
 			t := types[s.X-1]
 			n1 := def(t)
